@@ -185,6 +185,9 @@ func TestLinkReal(t *testing.T) {
 	defer mangos.VerifSetMsgLedger(nil)
 	for ti, tr := range realTrans() {
 		for pi, lp := range linkPats() {
+			if f := os.Getenv("VERIF_LINK_PATS"); f != "" && !strings.Contains(","+f+",", ","+lp.name+",") {
+				continue
+			}
 			if !thorough() && (ti+pi)%2 == 1 && tr.name != "tcp" && tr.name != "inproc" {
 				continue // quick tier: every transport with half of the patterns, tcp and inproc with all
 			}
@@ -233,6 +236,40 @@ func TestLinkReal(t *testing.T) {
 						r.Emit("lhold", "len", len(h.b), "d0", h.d, "d", digest(h.b))
 					}
 				}()
+				// several messages under way at once, all sent through the byte-slice API from ONE buffer that the caller
+				// fills again as soon as Send has returned (Send copies: the buffer stays the caller's), the receiver
+				// reading only afterwards.  Lengths on both sides of the largest pool class.
+				if lp.name == "pair" || lp.name == "pushpull" || lp.name == "xpair" || lp.name == "xpushxpull" {
+					buf := make([]byte, 100000)
+					var sizes []int
+					for _, n := range []int{100000, 65536, 65535, 70000, 65537, 3, 99999, 65536} {
+						if n+lp.hdr <= limit {
+							sizes = append(sizes, n)
+						}
+					}
+					if len(sizes) == 0 {
+						sizes = []int{limit - lp.hdr, 7, limit - lp.hdr - 1, 0, limit - lp.hdr}
+					}
+					for bi, n := range sizes {
+						copy(buf, payload(n, 5000+bi+k*1000))
+						r.Emit("lsend", "dir", "ab", "len", n, "d", digest(buf[:n]))
+						if err := a.Send(buf[:n]); err != nil {
+							r.Emit("lerr", "dir", "ab", "op", "send", "r", err)
+							return
+						}
+					}
+					for i := range buf {
+						buf[i] = 0xEE
+					}
+					for range sizes {
+						gb, err := b.Recv()
+						if err != nil {
+							r.Emit("lerr", "dir", "ab", "op", "recv", "r", err)
+							return
+						}
+						r.Emit("lrecv", "dir", "ab", "len", len(gb), "d", digest(gb))
+					}
+				}
 				for si, n := range linkSizes(rng, limit, lp.hdr) {
 					body := payload(n, si+k*1000)
 					// the size hint is only a hint: messages grown past it must arrive intact too
